@@ -67,6 +67,16 @@ class C19(Prop):
 
     def gen(self, rng, i, tier):
         fam = ["exponential", "poisson", "power_law", "scale_free_cut_off"][i % 4]
+        if (i // 4) % 3 == 2:
+            # the ends of the documented parameter ranges (a > 0, mean > 0, alpha >= 2, kappa > 0): very small and very large values
+            j = i // 12                      # walk through the lists in order: the quick tier reaches the first five of each
+            if fam == "exponential":
+                return {"family": fam, "a": [1000.0, 1e-6, 710.0, 709.7, 300.0, 745.2, 1e-3, 50.0, 700.0][j % 9]}
+            if fam == "poisson":
+                return {"family": fam, "mean": [150.0, 1e-9, 60.0, 1e-3][j % 4]}
+            if fam == "power_law":
+                return {"family": fam, "alpha": [60, 2, 25, 10.0, 2.0, 40.5, 10][j % 7]}
+            return {"family": fam, "alpha": [2, 8, 2.5, 20][j % 4], "kappa": [1e5, 0.01, 1e3, 0.05][(j // 2 + j) % 4]}
         if fam == "exponential":
             return {"family": fam, "a": rng.choice([0.05, 0.3, 1.0, 2.5, 5.0, round(rng.uniform(0.05, 5), 3)])}
         if fam == "poisson":
@@ -97,6 +107,8 @@ class C19(Prop):
     def request(self, case, obs):
         fam = case["family"]
         a = case.get("alpha")
+        if fam == "scale_free_cut_off" and case["kappa"] < 0.2:
+            return None      # z = e^(-1/kappa) < 1e-2..1e-44: below the 1e-18 fixed-point resolution of the model's printed normaliser
         if "exc" not in obs and fam in ("power_law", "scale_free_cut_off") and float(a).is_integer():
             if fam == "power_law":
                 return {"op": "c19", "kind": "zeta", "s": int(a)}
@@ -128,6 +140,9 @@ class C19(Prop):
         f = []
         fam = case["family"]
         ks = obs["ks"]
+        if any(v.lstrip("-") in ("inf", "nan") for v in obs["vals"]):
+            k = next(k for k, v in zip(ks, obs["vals"]) if v.lstrip("-") in ("inf", "nan"))
+            return [f"not-finite: p({k}) = {obs['vals'][ks.index(k)]}"]
         vals = [Decimal(v) for v in obs["vals"]]
         if any(v < 0 for v in vals):
             f.append("negative: a probability is negative")
@@ -164,6 +179,11 @@ class C19(Prop):
             tail = None
         for k, v, w in zip(ks, vals, want):
             if w == 0:
+                continue
+            if w < Decimal("1e-290"):          # below the range of doubles: the float value may underflow to 0
+                if v > Decimal("1e-280"):
+                    f.append(f"value: p({k}) = {v:.6g}, the named law gives {w:.6g}")
+                    break
                 continue
             # truncated normaliser is smaller than the exact one, so the code's value is >= the exact one, by at most `bound` relatively
             r = v / w - 1
